@@ -106,7 +106,23 @@ def run(run):
             # the same points as rows of several symbols and with two leading batch dimensions: every decision that differs from the
             # one-symbol-per-row pass is handed to the specification as well (equal ones are already judged above)
             if s.kind == "memoryless":
-                for shp in ((-1, 4), (2, -1, 3)):
+                for shp in ((-1, 4), (2, -1, 3), "strided"):
+                    if shp == "strided":             # the same points as a non-contiguous strided view of a larger buffer
+                        from .core import noncontiguous
+                        npts = len(ypts)
+                        try:
+                            h2 = d(noncontiguous(feed(ypts))).reshape(npts, -1)
+                        except Exception:
+                            continue
+                        for (x, yy), r1, r2 in zip(ypts, hard, h2):
+                            run.case((s.name, "hard", "strided", x, yy), nontrivial=True)
+                            if r1.shape != r2.shape or not torch.equal(r1, r2):
+                                tid += 1
+                                bits = modem.out_bits(r2)
+                                lab = -1 if (-1 in bits or len(bits) != b) else int("".join(map(str, bits)), 2)
+                                evs.append({"ev": "Hard", "tid": tid, "y": [x, yy], "out": lab, "layout": "strided view"})
+                                owner.append(s)
+                        continue
                     cnt = abs(shp[0] * shp[1] * (shp[2] if len(shp) > 2 else 1))
                     npts = len(ypts) - len(ypts) % (cnt * 2)
                     if npts < cnt * 2:
